@@ -1,2 +1,2 @@
-mod datatype;
+pub(crate) mod datatype;
 mod numeric;
